@@ -32,6 +32,17 @@ impl Language for Scala {
         _imports: &CrateTypes,
         data: ParsedData,
     ) -> std::io::Result<()> {
+        // Constants cannot be generated for Scala: report them instead of leaving them out silently.
+        if let Some(c) = data.consts.first() {
+            return Err(std::io::Error::new(
+                std::io::ErrorKind::Unsupported,
+                format!(
+                    "constants are not supported for Scala (found `{}`)",
+                    c.id.original
+                ),
+            ));
+        }
+
         self.begin_file(writable, &data)?;
 
         // Package object to hold type aliases: aliases must be in class or object in Scala 2)
